@@ -8,6 +8,9 @@ EXTENDS AppSys, Json
 
 NoFaults == [start |-> 0, stop |-> 0, kill |-> 0, post |-> 2, sil |-> 0, exp |-> 0]
 LateStart == [start |-> 1, stop |-> 0, kill |-> 0, post |-> 2, sil |-> 0, exp |-> 0]
+QStop == [start |-> 1, stop |-> 1, kill |-> 0, post |-> 2, sil |-> 1, exp |-> 0]
+QKill == [start |-> 1, stop |-> 0, kill |-> 1, post |-> 2, sil |-> 1, exp |-> 0]
+QFault == [start |-> 2, stop |-> 1, kill |-> 0, post |-> 2, sil |-> 0, exp |-> 0]
 SoloStop == [start |-> 1, stop |-> 1, kill |-> 0, post |-> 3, sil |-> 1, exp |-> 1]
 SoloKill == [start |-> 1, stop |-> 0, kill |-> 1, post |-> 3, sil |-> 1, exp |-> 0]
 Restarts == [start |-> 2, stop |-> 1, kill |-> 1, post |-> 3, sil |-> 1, exp |-> 1]
@@ -15,6 +18,11 @@ FaultStop == [start |-> 2, stop |-> 1, kill |-> 0, post |-> 2, sil |-> 1, exp |-
 FaultKill == [start |-> 2, stop |-> 0, kill |-> 1, post |-> 2, sil |-> 0, exp |-> 0]
 Faults == [start |-> 2, stop |-> 1, kill |-> 1, post |-> 3, sil |-> 1, exp |-> 0]
 Faults3 == [start |-> 2, stop |-> 1, kill |-> 1, post |-> 2, sil |-> 0, exp |-> 0]
+
+OnePost == [start |-> 0, stop |-> 0, kill |-> 0, post |-> 1, sil |-> 0, exp |-> 0]
+GenRestart == [start |-> 2, stop |-> 1, kill |-> 1, post |-> 3, sil |-> 1, exp |-> 0]
+GenFaults == [start |-> 2, stop |-> 1, kill |-> 1, post |-> 4, sil |-> 1, exp |-> 1]
+GenHealthy == [start |-> 0, stop |-> 0, kill |-> 0, post |-> 4, sil |-> 0, exp |-> 0]
 
 View == <<now, life, upAt, rdy, has, sv, due, pend, nfl, snapN, snapS, mt, net, cnt,
           pos, sent, gen, since, owe, told, healthy, posted, expired>>
